@@ -473,6 +473,13 @@ func (fr *Frame) step(ins0 ssa.Instruction, st *State, reach string, b *ssa.Basi
 	case *ssa.Next:
 		fr.vals[ins] = fr.rangeNext(ins, st, reach)
 	case *ssa.Panic:
+		if fr.top && x.c != nil && x.c.Trusted != "" && x.c.PanicAssumed {
+			// the reason a contract is `trusted` for may be exactly that its panic(...) cannot happen: the rest of the
+			// body is still checked (checks[...]), the panic site is an assumption listed in the evidence
+			x.assume(reach, "false")
+			x.externs[fmt.Sprintf("assumed unreachable: panic(...) in %s at %s (%s)", fnKeyShort(fr.fn), x.posOf(ins), x.c.Trusted)] = true
+			return true
+		}
 		x.addObl("safety:explicit-panic", "", x.posOf(ins), reach, "false")
 		return true
 	case *ssa.Jump:
